@@ -6,13 +6,21 @@ Record qcase := { qc_recs : list record; qc_delim : str; qc_strs : list str; qc_
 
 Definition as_pair_str (v : val) : option (str * str) :=
   match v with VList [VStr a; VStr b] => Some (a, b) | _ => None end.
-Definition decode_qcase (v : val) : option qcase :=
-  match v with
-  | VList [rs; VStr d; ss; ps] =>
+(* an optional fifth element says HOW the harness built the converter from these records (0 constructor, 1 add_record one by
+   one, 2 bare add_prefix followed by merges): by C05 the result is the same converter, so the model ignores it *)
+Definition decode_qcase4 (rs d ss ps : val) : option qcase :=
+  match d with
+  | VStr d' =>
       match as_records rs, as_strs ss, as_list_of as_pair_str ps with
-      | Some rs', Some ss', Some ps' => Some {| qc_recs := rs'; qc_delim := d; qc_strs := ss'; qc_pairs := ps' |}
+      | Some rs', Some ss', Some ps' => Some {| qc_recs := rs'; qc_delim := d'; qc_strs := ss'; qc_pairs := ps' |}
       | _, _, _ => None
       end
+  | _ => None
+  end.
+Definition decode_qcase (v : val) : option qcase :=
+  match v with
+  | VList [rs; d; ss; ps] => decode_qcase4 rs d ss ps
+  | VList [rs; d; ss; ps; VInt _] => decode_qcase4 rs d ss ps
   | _ => None
   end.
 
